@@ -10,6 +10,7 @@ import (
 	"net"
 	"os"
 	"path/filepath"
+	"runtime"
 	"strings"
 	"sync"
 	"syscall"
@@ -60,6 +61,9 @@ type sinkLine struct {
 }
 
 func (s *recSink) Printf(format string, args ...interface{}) {
+	// a sink takes its time (a lock, a system call) before it has rendered what it was given: the
+	// arguments are the caller's to keep valid until the call returns
+	runtime.Gosched()
 	text := fmt.Sprintf(format, args...)
 	var st int64
 	if s.log != nil {
